@@ -1484,6 +1484,29 @@ theorem evalL_spec {st : St} (inv : Inv lower st) : ∀ (qs : QList), qs.wf st =
       and_self]
 end
 
+theorem write_rejected (st : St) (op : WOp) (h : st.accepts lower op = false) : st.write lower op = st := by
+  simp [St.write, h]
+
+theorem int_lacking {st : St} (path : List String) (i : Id) (hlack : getProp (docOf st.pts i) path = none) :
+    intVals path (docOf st.pts i) = [] := by
+  simp [intVals, hlack]
+
 end
+
+/-! unfolding lemmas for the validity predicates (so that Props.lean needs no equation lemmas of its own) -/
+theorem Query.valid_leaf (l : Leaf) : (Query.leaf l).Valid ↔ l.Valid := by simp [Query.Valid]
+theorem Query.valid_and (qs : QList) : (Query.and qs).Valid ↔ qs.Valid := by simp [Query.Valid]
+theorem Query.valid_or (qs : QList) : (Query.or qs).Valid ↔ qs.Valid := by simp [Query.Valid]
+theorem QList.valid_nil : QList.nil.Valid := by simp [QList.Valid]
+theorem QList.valid_cons (q : Query) (qs : QList) : (QList.cons q qs).Valid ↔ q.Valid ∧ qs.Valid := by simp [QList.Valid]
+theorem Leaf.valid_idEq (u : String) : (Leaf.idEq u).Valid := by simp [Leaf.Valid]
+theorem Leaf.valid_idAny (us : List String) : (Leaf.idAny us).Valid := by simp [Leaf.Valid]
+theorem Leaf.valid_int (p : List String) (op : Op) (v e : BitVec 64) : (Leaf.int p op v e).Valid := by simp [Leaf.Valid]
+theorem Leaf.valid_str (p : List String) (op : Op) (v e : Bytes) : (Leaf.str p op v e).Valid := by simp [Leaf.Valid]
+theorem Leaf.valid_strArr (p : List String) (all : Bool) (vs : List Bytes) : (Leaf.strArr p all vs).Valid := by simp [Leaf.Valid]
+theorem Leaf.valid_flt (p : List String) (op : Op) (v e : BitVec 64) :
+    (Leaf.flt p op v e).Valid ↔ F64.isNaN v = false ∧ F64.isNaN e = false := by simp [Leaf.Valid]
+theorem Query.wf_leaf (st : St) (l : Leaf) : (Query.leaf l).wf st = l.wf st := by simp [Query.wf]
+theorem Leaf.wf_idEq (st : St) (u : String) : (Leaf.idEq u).wf st = true := by simp [Leaf.wf]
 
 end Sema.C02
